@@ -18,7 +18,12 @@ Fault points (in the order they are numbered):
     close:  ("close", "before", name, None), ("close", "after", name, None)
 
 Files are opened with buffering=0, so "written" means handed to the OS: what the files contain after a Crash is
-what a killed process would have left.  Crash derives from BaseException so that `except Exception` in the code under
+what a killed process would have left.  That is the pessimistic model for torn writes.  The second model,
+FaultFS(bufsize=N) with N > 0, is the one a real Python process follows: a proxy keeps written bytes in its own buffer of
+N bytes (CPython's BufferedWriter policy: data that fits is kept; otherwise the buffer is flushed and data of N bytes or
+more goes straight through) and only flush()/close() hand them to the OS; a Crash discards every unflushed buffer.  It
+shows ordering defects that write-through hides (a file opened later reaching the disk before an earlier one is
+flushed).  In that model writes have only their before/after points.  Crash derives from BaseException so that `except Exception` in the code under
 test cannot swallow it.  After the crash the file system is dead: further writes/opens raise Crash again without
 effect, close() only releases the descriptor (as process exit would).
 """
@@ -37,8 +42,9 @@ def partial_cuts(n):
 
 
 class FaultFS:
-    def __init__(self, crash_at=None):
+    def __init__(self, crash_at=None, bufsize=0):
         self.crash_at = crash_at
+        self.bufsize = bufsize
         self.armed = False
         self.points = []
         self.crashed = None  # descriptor of the point where Crash was raised
@@ -101,6 +107,7 @@ class FileProxy:
         self._real = real
         self._name = name
         self._binary = binary
+        self._buf = bytearray()  # buffered model only: bytes the OS has not been given yet
 
     # ---- instrumented operations
     def _raw_write(self, data):
@@ -116,12 +123,35 @@ class FileProxy:
             self._real.write(data)
             self._real.flush()
 
+    def _flush_buf(self):
+        if self._buf:
+            self._raw_write(bytes(self._buf))
+            self._buf.clear()
+
+    def flush(self):
+        self._fs._dead()
+        self._flush_buf()
+
+    def tell(self):
+        return self._real.tell() + len(self._buf)
+
     def write(self, data):
         fs = self._fs
         fs._dead()
         fs.ops["write"] += 1
         n = len(data)
         fs._point(("write", "before", self._name, 0))
+        if fs.bufsize and self._binary:
+            if len(self._buf) + n <= fs.bufsize:
+                self._buf += data
+            else:
+                self._flush_buf()
+                if n >= fs.bufsize:
+                    self._raw_write(data)
+                else:
+                    self._buf += data
+            fs._point(("write", "after", self._name, n))
+            return n
         cuts = partial_cuts(n)
         rel = fs._will_crash_within(len(cuts))
         if rel is not None:
@@ -152,6 +182,7 @@ class FileProxy:
             return
         fs.ops["close"] += 1
         fs._point(("close", "before", self._name, None))
+        self._flush_buf()
         self._real.close()
         if self._real in fs.live:
             fs.live.remove(self._real)
